@@ -4,7 +4,7 @@
 From Coq Require Import List NArith.
 From stdpp Require Import gmap.
 From RaftModel Require Import Base Config Compaction Node NodeCodec Cluster ClusterLog ClusterCommit.
-From RaftProofs Require Import CompactionProofs SnapshotProofs ClusterCommitSpec ClusterCommitSnapSpec ClusterCommitSnapMain.
+From RaftProofs Require Import CompactionProofs SnapshotProofs ClusterCommitSpec ClusterCommitSnapSpec ClusterCommitSnapMain ClusterCoverSpec ClusterCoverMain.
 Open Scope N_scope.
 
 (* whatever first/snapshot/last/TrailingLogs: the range deleted starts at the first index, ends at
@@ -69,3 +69,17 @@ Theorem C11_snapshots_are_of_committed_history : forall cfg g0 ls g,
   snapshots_committed g.
 Proof. intros cfg g0 ls g H0 Hl Hr. destruct (state_machine_safety_snapshots cfg g0 ls g H0 Hl Hr) as (_ & _ & _ & A). exact A. Qed.
 Print Assumptions C11_snapshots_are_of_committed_history.
+
+
+(* ALL RUNS, coverage: in the DURABLE state of every server - running, or stopped by a crash cut after any
+   durable operation of any handler or of takeSnapshot (image) - every index is at or below the NEWEST
+   snapshot of its snapshot store, or present in its log store, or beyond the end of the log store: no hole
+   above the newest snapshot and nothing missing between it and the first log entry; and the snapshots of one
+   store have increasing indexes (so the newest, which NewRaft restores, is the largest).  Statement:
+   Proofs/ClusterCoverSpec.v; proof by a prover sub-agent (Proofs/ClusterCover*.v, on top of the invariant of
+   the snapshot system).  Snapshot TRANSFER is not in this system (F3-ii / F12). *)
+Theorem C11_no_history_lost_all_runs : forall cfg g0 ls g,
+  cinit_snap_ok cfg g0 -> Forall label_ok ls -> crun true [cfg] g0 ls = Some g ->
+  no_history_lost g /\ snaps_increasing g.
+Proof. exact no_history_lost_all_runs. Qed.
+Print Assumptions C11_no_history_lost_all_runs.
